@@ -379,3 +379,62 @@ pub fn facts_to_fops(rng: &mut Rng, f: &Facts, flags: &Flags, fv: u8, slot: u32,
     }
     case.op(format!("fload {} {}", fv, slot));
 }
+
+/// A deep is_a chain (depth well beyond 32), optionally with shortcut edges and a few annotations,
+/// ids assigned by random injection. Terms are listed root first in `f.terms`.
+pub fn gen_deep_chain(rng: &mut Rng, n: usize) -> Facts {
+    let ids = gen_ids(rng, n, &[]);
+    let mut f = Facts::default();
+    for id in &ids {
+        f.terms.push((*id, gen_name(rng)));
+    }
+    for i in 1..n {
+        f.edges.push((ids[i - 1], ids[i]));
+        if i >= 3 && rng.chance(1, 10) {
+            f.edges.push((ids[rng.below((i - 2) as u64) as usize], ids[i]));
+        }
+    }
+    for k in 0..3 {
+        let nrec = rng.range(0, 2) as u32;
+        for r in 1..=nrec {
+            f.recs[k].push((r, gen_name(rng)));
+            for _ in 0..rng.range(1, 3) {
+                f.links[k].push((r, *rng.pick(&ids)));
+            }
+        }
+    }
+    f.version = (2024, 1, 1);
+    f
+}
+
+/// Builder program for `f` with the terms supplied in the given order of `f.terms`
+/// (`leaf_first`: reversed = every child before its parent, `shuffle`: random).
+pub fn deep_prog(rng: &mut Rng, f: &Facts, slot: u32, leaf_first: bool, shuffle: bool, case: &mut Case) {
+    case.op("new".to_string());
+    let mut terms = f.terms.clone();
+    if leaf_first {
+        terms.reverse();
+    }
+    if shuffle {
+        rng.shuffle(&mut terms);
+    }
+    for (id, nm) in &terms {
+        case.op(format!("term {} {}", id, name(nm)));
+    }
+    case.op("complete".to_string());
+    let mut edges = f.edges.clone();
+    if shuffle {
+        rng.shuffle(&mut edges);
+    }
+    for (p, c) in &edges {
+        case.op(format!("parent {} {}", p, c));
+    }
+    case.op("connect".to_string());
+    for k in 0..3 {
+        for (r, t) in &f.links[k] {
+            case.op(format!("ann {} {} {} {}", KINDS[k], r, name(&rec_name(f, k, *r)), t));
+        }
+    }
+    case.op("ic".to_string());
+    case.op(format!("build min {}", slot));
+}
